@@ -30,6 +30,8 @@ def generate(tier, seed):
             cases.append({"kind": "types", "chunk": chunk, "of": 48, "rep": rep})
         for chunk in range(10):
             cases.append({"kind": "styles", "chunk": chunk, "of": 10, "rep": rep})
+    for k in range(6 if tier == "quick" else 120):
+        cases.append({"kind": "batch-seeds", "chunk": k, "rep": 0})
     return cases
 
 
@@ -149,7 +151,42 @@ def run_case(case, ctx):
     annot.install_templates(root, ["custom", "commented", "nocontrib", "fixedtag"])
     styles = ctx.state["styles"]
     try:
-        if case["kind"] == "types":
+        if case["kind"] == "batch-seeds":
+            # one invocation over several files with different histories, repeated in fresh processes whose hash seeds differ
+            # (the order in which the files are taken is the order of a set): after the first run nothing changes any more
+            import subprocess
+
+            from .. import env
+
+            d = root / "batch"
+            d.mkdir()
+            names = ["a.py", "b.py", "c.c", "d.sh", "e.rs", "f.py"]
+            (d / "a.py").write_text("# SPDX-FileCopyrightText: 2001 Alice Example\n\nprint('a')\n")
+            (d / "b.py").write_text("print('b')\n")
+            (d / "c.c").write_text("/*\n * SPDX-FileCopyrightText: 2003 Carol Example\n * SPDX-License-Identifier: 0BSD\n */\n\nint c;\n")
+            (d / "d.sh").write_text("#!/bin/sh\n# SPDX-FileCopyrightText: 2004 Dave Example\n\necho d\n")
+            (d / "e.rs").write_text("fn main() {}\n")
+            (d / "f.py").write_text("# SPDX-FileCopyrightText: 2006 Frank Example\n# SPDX-License-Identifier: ISC\n\nprint('f')\n")
+            args = ["annotate", "-c", "Jane Doe", "-l", "MIT", "--year", "2020"] + rng.choice([[], ["--merge-copyrights"], ["--contributor", "Con Tributor"]])
+            order = names[:]
+            rng.shuffle(order)
+            states = []
+            for run, seed in enumerate(rng.sample(["0", "1", "2", "3", "4", "5", "6", "7"], 4)):
+                p = subprocess.run([env.PY, "-m", "vlib.launch", "--", "--root", str(root)] + args + order, cwd=str(d),
+                                   env=env.child_env(PYTHONHASHSEED=seed), stdout=subprocess.PIPE, stderr=subprocess.PIPE, timeout=180)
+                if p.returncode != 0:
+                    res.violation("batch-run-failed", f"annotate over six files exit {p.returncode}", stderr=p.stderr.decode(errors="replace")[-500:])
+                    break
+                states.append({n: (d / n).read_bytes() for n in names})
+                res.n += 1
+                if run and states[-1] != states[0]:
+                    diff = [n for n in names if states[-1][n] != states[0][n]]
+                    res.violation("not-idempotent:batch-under-another-hash-seed", f"run {run + 1} (PYTHONHASHSEED={seed}) of the identical command "
+                                  f"changed {diff}", after1=states[0][diff[0]].decode()[:400], after=states[-1][diff[0]].decode()[:400])
+                    break
+                res.sigs.add(short_hash("batch-seeds", case["chunk"], seed, args))
+            res.cell("batch-under-different-hash-seeds")
+        elif case["kind"] == "types":
             types = ctx.state["types"][case["chunk"]::case["of"]]
             for t in types:
                 st = styles.get(t["short"])
